@@ -201,12 +201,19 @@ where
     } else if let Some(buf) = src.get(..BAM_MAGIC_NUMBER.len()) {
         if buf == BAM_MAGIC_NUMBER {
             return Ok(Format::Bam);
-        } else if buf == CRAM_MAGIC_NUMBER {
+        } else if buf == CRAM_MAGIC_NUMBER && !is_sam_text(src.get(CRAM_MAGIC_NUMBER.len())) {
             return Ok(Format::Cram);
         }
     }
 
     Ok(Format::Sam)
+}
+
+// SAM has no magic number. A SAM without a header starts with a read name, which can start with
+// "CRAM". The CRAM magic number is followed by the major format version (a small number), whereas
+// a read name continues with a printable character or ends with a tab.
+fn is_sam_text(b: Option<&u8>) -> bool {
+    matches!(b, Some(b'\t' | b'!'..=b'~'))
 }
 
 #[cfg(test)]
